@@ -3,7 +3,6 @@ package props
 import "verif/harness/pure"
 
 func init() {
-	Registry["C15"] = pure.C15
 	Registry["C19"] = pure.C19
 	Registry["C20"] = pure.C20
 }
